@@ -322,6 +322,13 @@ fn run3(c: &mut Ctx) {
                     let mut e: f64 = 0.0;
                     for p in probes3() { e = e.max(err_p3(&(q2.transform() * p), &(q.transform() * p + d), scale.max(p.coords.amax()).max(d.amax()))); }
                     c.le(e, TOL_RT, "3D: a pure-translation parameter change translates every point by exactly that vector", || format!("{} | shift ({}, {}, {})", inp(), d.x, d.y, d.z));
+                    // every derived field (inverse, current_rc, rotation matrices) belongs to the NEW parameter vector as well
+                    let xs = x0 + Vector6::new(d.x, d.y, d.z, 0.0, 0.0, 0.0);
+                    let inp3 = || format!("{} | translation-only set, shift ({}, {}, {})", inp(), d.x, d.y, d.z);
+                    state3(c, &q2, rc, &rc_d, &xs, scale.max(d.amax()), "RcParams3 after a translation-only set()", &inp3);
+                    // ... and after a second one straight back (two fast-path updates in a row)
+                    q2.set(&x0);
+                    state3(c, &q2, rc, &rc_d, &x0, scale.max(d.amax()), "RcParams3 after a translation-only set() and back", &inp3);
                 }
                 if conv == 0 && (roll == 0.4 || roll == PI) && (yaw == -0.9 || yaw == -PI) && class != 2 {
                     let mut q = q.clone();
@@ -400,6 +407,23 @@ fn jacobians3(c: &mut Ctx) {
                 for k in 0..6 {
                     let fd = fd4(|h| sf.transformed(&(at(k, h) * tinv)).scalar_projection(&p).abs());
                     c.le((jr[k] - fd).abs() / (1.0 + jr[k].abs()), TOL_J, "3D: point_plane_jacobian_rev entry == central finite difference of |n'.(p - c')| w.r.t. that parameter of the REFERENCE", || format!("{} | parameter {} analytic {:e} fd {:e}", inp(), k, jr[k], fd));
+                }
+            } }
+            // close (but not coincident) pairs: the stencil of a finite difference of the DISTANCE would straddle the kink at
+            // zero, so the oracle is u . d(T p)/dx_k with u the unit vector from the reference to the point and the derivative of
+            // the moved POINT (smooth) taken by finite differences. Below 1e-8 the row is zero by design (not claimed).
+            for (vi, v) in pp.iter().enumerate() { for sep in [1e-2, 1e-4, 3.5e-5, 1e-6, 1e-7] {
+                c.r.case();
+                let cpt = p + v.normalize() * sep;
+                // the direction of the pair as it is representable (coordinates up to 1e3: p - cpt carries a rounding error of
+                // ~1e-13, which is 1e-6 of the smallest separation; the clause is about the derivative, not about that)
+                let u = (p - cpt).normalize();
+                let inp = || format!("{}, reference point at distance {:e} from p along direction #{}", pose(), sep, vi);
+                let j = point_point_jacobian(&p, &cpt, &q);
+                for k in 0..6 {
+                    let dp = Vector3::new(fd4(|h| (at(k, h) * p0).x), fd4(|h| (at(k, h) * p0).y), fd4(|h| (at(k, h) * p0).z));
+                    let want = u.dot(&dp);
+                    c.le((j[k] - want).abs() / (1.0 + j[k].abs()), TOL_J, "3D: point_point_jacobian entry == u . d(T p)/dx for a CLOSE pair (1e-7 <= distance <= 1e-2)", || format!("{} | parameter {} analytic {:e} expected {:e}", inp(), k, j[k], want));
                 }
             } }
             for v in pp.iter() {
